@@ -254,7 +254,8 @@ def check_property(pid, tier, base_seed, out=sys.stdout, write_evidence=True, ex
         # gate: fresh-process replay must reproduce class and event hash, twice
         g1 = simrun(bdir, b, ['--replay', rp])[1]; g2 = simrun(bdir, b, ['--replay', rp])[1]
         shutil.rmtree(tmpd, ignore_errors=True)
-        if not (g1.get('oracle') == oracle and g2.get('oracle') == oracle and g1.get('event_hash') == r.get('event_hash') == g2.get('event_hash')):
+        if oracle == 'hang' and g1.get('oracle') == 'hang' and g2.get('oracle') == 'hang': pass    # a hang has no final state to hash: both replays must hang
+        elif not (g1.get('oracle') == oracle and g2.get('oracle') == oracle and g1.get('event_hash') == r.get('event_hash') == g2.get('event_hash')):
             out.write('MACHINERY-ERROR property=%s violation class %s (family %s build %s seed %d) does not replay identically: %s/%s vs %s\n' % (pid, oracle, fam, b, sd, g1.get('oracle'), g1.get('event_hash'), r.get('event_hash')))
             exit_code = max(exit_code, 2); continue
         if kn is not None:
@@ -263,7 +264,7 @@ def check_property(pid, tier, base_seed, out=sys.stdout, write_evidence=True, ex
                 out.write('KNOWN-FINDING: property=%s %s [%s; e.g. family=%s build=%s seed=%d]\n' % (pid, kn.get('title', kn['what'][:200]), kn['id'], fam, b, sd))
             reported.append({'oracle': oracle, 'build': b, 'known': kn['id'], 'runs': len(vs)})
             continue
-        mn = Minimiser(bdir, b, plan, oracle, budget_runs=spec.get('min_runs', 250), budget_s=spec.get('min_s', 60))
+        mn = Minimiser(bdir, b, plan, oracle, budget_runs=(6 if oracle == 'hang' else spec.get('min_runs', 250)), budget_s=spec.get('min_s', 60))
         small = mn.run()
         rp = os.path.join(replay_dir, '%s-%s-%s-%d.json' % (pid, oracle, b, sd))
         json.dump({'property': pid, 'family': fam, 'build': b, 'seed': sd, 'plan': small}, open(rp, 'w'), indent=0)
